@@ -54,6 +54,10 @@ pub trait System: Sync {
     fn rust_line(&self, a: &Self::Action) -> String {
         format!("// {:?}", a)
     }
+    /// Lines that create the object(s) the replayed actions operate on.
+    fn rust_preamble(&self) -> String {
+        String::new()
+    }
 }
 
 #[derive(Clone, Debug)]
@@ -159,7 +163,72 @@ fn lookup<S: System>(
     false
 }
 
+/// Replay mode (env XS_REPLAY=<artefact json>): no search. The system named in the artefact walks
+/// the recorded action list from its initial state through the real code; every other system is
+/// skipped.
+fn replay_mode<S: System>(sys: &S) -> Option<Outcome<S>> {
+    let path = std::env::var("XS_REPLAY").ok()?;
+    let doc: serde_json::Value = serde_json::from_str(&std::fs::read_to_string(&path).ok()?).ok()?;
+    let case = doc["case"].as_str().unwrap_or("");
+    let (name, actions) = case.rsplit_once('|').unwrap_or(("", ""));
+    let mut out = Outcome {
+        nodes: vec![Node { state: sys.init(), parent: u32::MAX, action: None, obs: 0, depth: 0, chain: u32::MAX }],
+        transitions: 0,
+        probes: 0,
+        depth: 0,
+        class_counts: vec![0; sys.n_classes()],
+        distinct_obs: 0,
+        obs_capped: false,
+        found: Vec::new(),
+        exhaustive: true,
+        cap: None,
+        max_bucket: 1,
+        restoration_checked: 0,
+        restoration_failures: Vec::new(),
+        wall_s: 0.0,
+    };
+    if name != sys.name() {
+        return Some(out);
+    }
+    let mut cur = sys.init();
+    let mut trace: Vec<S::Action> = Vec::new();
+    let mut acts = Vec::new();
+    for want in actions.split(';').filter(|a| !a.is_empty()) {
+        acts.clear();
+        sys.actions(&cur, &mut acts);
+        let a = match acts.iter().find(|a| sys.render(a) == want) {
+            Some(a) => a.clone(),
+            None => {
+                println!("REPLAY: action {:?} is not enabled in the reached state of {}", want, name);
+                return Some(out);
+            }
+        };
+        trace.push(a.clone());
+        let r = match crate::catch(|| sys.step(&cur, &a)) {
+            Ok(r) => r,
+            Err(msg) => Step {
+                next: None,
+                obs: 0,
+                violations: vec![Violation::new("panics-on-valid-input", format!("{}/panics-on-valid-input/{}", sys.pid(), sys.class_name(sys.class_of(&a))), format!("the real code panicked during {:?}: {}", a, msg))],
+            },
+        };
+        out.transitions += 1;
+        println!("REPLAY: {} -> observation {:016x}, {} violation(s)", want, r.obs, r.violations.len());
+        for v in r.violations {
+            out.found.push(Found { violation: v, trace: trace.clone(), count: 1 });
+        }
+        match r.next {
+            Some(n) => cur = n,
+            None => break,
+        }
+    }
+    Some(out)
+}
+
 pub fn explore<S: System>(sys: &S, limits: &Limits) -> Outcome<S> {
+    if let Some(o) = replay_mode(sys) {
+        return o;
+    }
     let t0 = Instant::now();
     let mut nodes: Vec<Node<S>> = Vec::new();
     let mut map: HashMap<S::Key, u32> = HashMap::new();
@@ -503,9 +572,10 @@ pub fn record<S: System>(
         v.case = format!("{}|{}", sys.name(), rendered.join(";"));
         let lines: Vec<String> = f.trace.iter().map(|a| format!("    {}", sys.rust_line(a))).collect();
         v.rust_test = format!(
-            "// system: {}\n// {}\n#[test]\nfn replay() {{\n{}\n}}\n",
+            "// system: {}\n// {}\n#[test]\nfn replay() {{\n    {}\n{}\n}}\n",
             sys.name(),
             v.detail,
+            sys.rust_preamble(),
             lines.join("\n")
         );
         v.detail = format!("{} [trace: {}]", v.detail, rendered.join(" ; "));
